@@ -386,6 +386,34 @@ class Gen:
                 steps.append("G")
         return " ; ".join(steps)
 
+    def grow_case(self, big=False):
+        """one value grown step by step across the size boundaries of its encodings (an array by PUSH, a string by
+        APPEND: total 256 bytes = second byte of the 4-byte lengths; big: 65536 = third byte), read back, shrunk again
+        by POP / SHIFT, grown once more; one operation in the middle with requireRecover and its recovery"""
+        r = self.r
+        arr = r.random() < 0.7
+        piece = (lambda: bytes(r.choice(b"abcxyz\x00\xff") for _ in range(r.choice([1800, 2047, 2048, 2500])))) if big else \
+                (lambda: bytes(r.choice(b"abcxyz\x00\xff") for _ in range(r.choice([5, 8, 8, 13, 31, 40]))))
+        steps = ["P 0 1 0 0 10 1 0 0 x%s" % (f_set_array([piece() for _ in range(r.randint(0, 2))]) if arr else f_set(piece())).hex()]
+        n = r.randint(30, 45)
+        rec_at = r.randrange(n)
+        for i in range(n):
+            fr = f_push(piece()) if arr else f_append(piece())
+            if i == rec_at:
+                steps.append("P 0 1 0 0 10 1 0 1 x%s" % fr.hex())
+                steps.append("R 0")
+            else:
+                steps.append("P 0 1 0 0 10 1 0 0 x%s" % fr.hex())
+            if r.random() < 0.15:
+                steps.append("G")
+        steps.append("G")
+        for _ in range(r.randint(1, 4)):
+            steps.append("P 0 1 0 0 10 1 0 0 x%s" % (f_pop(r.randint(1, 3)) if r.random() < 0.5 else f_shift(r.randint(1, 3))).hex())
+        for _ in range(r.randint(2, 6)):
+            steps.append("P 0 1 0 0 10 1 0 0 x%s" % (f_push(piece()) if arr else f_append(piece())).hex())
+        steps.append("G")
+        return " ; ".join(steps)
+
     def recover_case(self):
         """value built by a few operations, then one operation with requireRecover immediately recovered"""
         r = self.r
@@ -649,8 +677,9 @@ def run(ctx):
         valid = [g.valid_case() for _ in range(n_valid)]
         rec = [g.recover_case() for _ in range(n_rec)]
         mal = [g.malformed_case(i) for i in range(n_mal)]
-        cases = corpus + valid + rec + mal
-        streams = [("corpus", len(corpus)), ("valid", len(valid)), ("recover", len(rec)), ("malformed", len(mal))]
+        grow = [g.grow_case(big=(i % 10 == 9)) for i in range(40 if not thorough else 400)]
+        cases = corpus + valid + rec + grow + mal
+        streams = [("corpus", len(corpus)), ("valid", len(valid)), ("recover", len(rec)), ("grow", len(grow)), ("malformed", len(mal))]
     tg = time.time()
     go_out = run_lines([harness], cases, 1200)
     t_go = time.time() - tg
